@@ -41,6 +41,9 @@ def detect(seed, pids, tier="quick"):
     assert sh(["git", "status", "--porcelain", "--untracked-files=no"], cwd="/repo").stdout.strip() == "", "/repo dirty"
     r = sh(["git", "apply", patch], cwd="/repo")
     if r.returncode != 0:
+        r = sh(["git", "apply", "--3way", patch], cwd="/repo")
+        sh(["git", "reset", "-q"], cwd="/repo")
+    if r.returncode != 0:
         print("APPLY FAILED on /repo", r.stderr)
         return 2
     res = {}
